@@ -836,7 +836,7 @@ pub fn run_c07(tier: Tier) -> i32 {
             return;
         }
         let pos_line2 = position_line(base, &moves2);
-        let take = if tier == Tier::Quick { 6 } else { legal2.len() };
+        let take = if tier == Tier::Quick { 6 } else if d1 >= 5 { 8 } else { legal2.len() };
         let step = (legal2.len() / take).max(1);
         let picks: Vec<&String> = legal2.iter().step_by(step).take(take).collect();
         for x in picks {
